@@ -3,6 +3,7 @@ CONSTANTS
   WorkerCpus = 0
   WorkerGroup = 0
   Menu = 0
+  OpenJobs = 0
   Classes = 0
   MaxLosses = 0
   MaxCancels = 0
